@@ -215,6 +215,9 @@ compare (int si, const char *pw, size_t pl, const char *replay)
   const struct setdef *S = &sets[si];
   char sig[200], mine[CRYPT_OUTPUT_SIZE], refo[CRYPT_OUTPUT_SIZE + 64];
   char *h = 0;
+  /* the published value must come out whatever the object held before (alternating garbage patterns and zero) */
+  static unsigned flip;
+  memset (d1, (++flip % 3) == 0 ? 0 : (flip % 3) == 1 ? 0xA5 : 0x4E, sizeof *d1);
   int k = VH_TRY (0);
   if (k == 0)
     {
